@@ -25,8 +25,8 @@ META = {
                     'declaration (rule mal has no trailing EOF) is counted but outside the property'],
     'shards': {'quick': 8, 'thorough': 16},
     'quotas': {
-        'quick': {'label:erroneous': 2000, 'erroneous:lexer-error': 100, 'erroneous:parser-error': 1000,
-                  'erroneous-in-included-file': 100, 'erroneous:raised': 2000, 'x-delete': 100, 'x-truncate': 100,
+        'quick': {'label:erroneous': 1000, 'erroneous:lexer-error': 100, 'erroneous:parser-error': 1000,
+                  'erroneous-in-included-file': 100, 'erroneous:raised': 1000, 'x-delete': 70, 'x-truncate': 70,
                   'via-from_mal_spec': 100},
         'thorough': {'label:erroneous': 200000, 'erroneous:lexer-error': 10000, 'erroneous:parser-error': 100000,
                      'erroneous-in-included-file': 10000, 'erroneous:raised': 200000, 'x-delete': 3000, 'x-truncate': 3000,
